@@ -167,7 +167,10 @@ impl<'a> PrettyPrinter<'a> {
             mixed_text,
         } in repr.lines
         {
+            let mut peek_hash = false;
             for node in nodes {
+                let ctx = ctx.with_after_hash(peek_hash);
+                peek_hash = node.kind() == SyntaxKind::Hash;
                 doc += if node.kind() == SyntaxKind::Space {
                     self.arena.space()
                 } else if let Some(text) = node.cast::<Text>() {
